@@ -182,7 +182,7 @@ var Properties = map[string]PropDef{
 		Bounds:      runBounds,
 		Assumptions: runAssumptions,
 		Outside:     "PARTIAL: programs outside the menu, runs that do not terminate, the heartbeat timer, GOMAXPROCS (true parallelism is covered only through the interleaving semantics), the non-polarised mode (the property speaks about the polarised modes)",
-		Harnesses:   []HarnessDef{{Name: "process.ZZC04Control"}, runMenuHarness(), runMenuUnreducedHarness(), structuralHarnesses()[0], structuralHarnesses()[1], structuralPairHarness()},
+		Harnesses:   []HarnessDef{{Name: "process.ZZC04Control"}, runMenuHarness(), runMenuUnreducedHarness(), structuralHarnesses()[0], structuralHarnesses()[1], structuralPairHarness(), {Name: "zzpub.ZZRunIllTyped", Depth: 400, Loop: 3000, Sched: true}},
 	},
 	"C03": {
 		ID: "C03", AssertPrefix: "C03.",
